@@ -189,6 +189,10 @@ def run_tfm(rec, sh, tier, seed):
             X = base.copy()
             bw, sg, a, s = b
             X[bi % n, s:s + bw] += sg * a
+            plateau = bi % 4 == 3 and bw > w
+            if plateau:
+                # a saturated, flat-topped bump (constant value): the window sums inside it are bit-identical, so the maximum is tied
+                X[bi % n, s:s + bw] = sg * a
             # a second, weaker bump elsewhere so that several seqlets per example occur
             s2 = (s + L // 2) % (L - bw)
             X[(bi + 1) % n, s2:s2 + bw] -= sg * 1.0
@@ -200,7 +204,7 @@ def run_tfm(rec, sh, tier, seed):
             Xt = torch.from_numpy(X.astype(numpy.float32))    # the caller's quantile step requires float32
             Xc = Xt.clone()
             for fl in flanks:
-                case = dict(fn="tfmodisco_seqlets", L=L, n=n, window_size=w, flank=fl, bump=list(b), second_bump_start=s2, seed=seed, huge_peak_at_2_8=huge)
+                case = dict(fn="tfmodisco_seqlets", L=L, n=n, window_size=w, flank=fl, bump=list(b), second_bump_start=s2, seed=seed, huge_peak_at_2_8=huge, flat_topped=plateau)
                 st, df = call(tfmodisco_seqlets, Xt, window_size=w, flank=fl)
                 n_calls += 1
                 if st != "ok":
